@@ -52,7 +52,13 @@ pub fn sc_int(s: &Sc) -> Vec<u8> {
 pub struct ModelG {
     pub e: Vec<Option<Pt>>,
     pub r: Vec<Option<Pt>>,
+    /// base point of the table object kept in each slot (group, point)
+    pub tslot: Vec<Option<(u8, Pt)>>,
+    /// static points of the precomputation object kept in each slot
+    pub pslot: Vec<Option<(u8, Vec<Pt>)>>,
 }
+
+pub const NSLOT: usize = 4;
 
 fn menc(g: u8, p: &Pt) -> [u8; 32] {
     if g == 0 {
@@ -74,7 +80,7 @@ fn mobs(o: &mut Obs, g: u8, p: &Pt) {
 
 impl ModelG {
     pub fn new() -> ModelG {
-        ModelG { e: vec![None; NREG], r: vec![None; NREG] }
+        ModelG { e: vec![None; NREG], r: vec![None; NREG], tslot: vec![None; NSLOT], pslot: vec![None; NSLOT] }
     }
     fn file(&mut self, g: u8) -> &mut Vec<Option<Pt>> {
         if g == 0 {
@@ -196,16 +202,65 @@ impl ModelG {
                 };
                 self.set(0, *dst, base.mul_le(&sc::clamp(&k.a32())), &mut o);
             }
-            Step::Table { g, dst, a, radix: _, s } => {
+            Step::Table { g, dst, a, radix: _, s, slot } => {
                 // (in builds without precomputed tables the same quantities are computed through the table-less
                 // entry points, so that plans and logs stay configuration-independent)
                 let p = need!(*g, *a);
+                self.tslot[*slot as usize % NSLOT] = Some((*g, p));
                 o.b("tbl_base", &menc(*g, &p));
                 if *g == 0 {
                     o.b("tbl_clamped", &p.mul_le(&sc::clamp(&s.b.a32())).encode());
                     o.b("tbl_converted", &p.mul_le(&sc_int(s)).encode());
                 }
                 self.set(*g, *dst, p.mul_le(&sc_int(s)), &mut o);
+            }
+            Step::TUse { g, dst, slot, s } => {
+                let p = match self.tslot[*slot as usize % NSLOT] {
+                    Some((tg, p)) if tg == *g => p,
+                    _ => return Out::Skip,
+                };
+                o.b("tbl_base", &menc(*g, &p));
+                self.set(*g, *dst, p.mul_le(&sc_int(s)), &mut o);
+            }
+            Step::PUse { g, dst, slot, entry, ss, ds, dh, .. } => {
+                let statics = match &self.pslot[*slot as usize % NSLOT] {
+                    Some((tg, v)) if *tg == *g => v.clone(),
+                    _ => return Out::Skip,
+                };
+                if ss.len() > statics.len() || ds.len() != dh.len() || (*entry == 0 && !ds.is_empty()) {
+                    return Out::Skip;
+                }
+                let mut pts = Vec::new();
+                let mut ks = Vec::new();
+                for (i, s) in ss.iter().enumerate() {
+                    pts.push(statics[i]);
+                    ks.push(sc_int(s));
+                }
+                let mut none = false;
+                for (s, h) in ds.iter().zip(dh) {
+                    match h {
+                        Some(h) => {
+                            pts.push(need!(*g, *h));
+                            ks.push(sc_int(s));
+                        }
+                        None => {
+                            if *entry != 2 {
+                                return Out::Skip;
+                            }
+                            none = true;
+                        }
+                    }
+                }
+                o.n("len", statics.len() as u64);
+                if *entry == 2 {
+                    o.f("some", !none);
+                }
+                if none {
+                    let f = self.file(*g);
+                    f[*dst as usize % NREG] = None;
+                } else {
+                    self.set(*g, *dst, ed::multiscalar(&ks, &pts), &mut o);
+                }
             }
             Step::Dbl2 { g, dst, sa, a, sb, .. } => {
                 let p = need!(*g, *a);
@@ -251,19 +306,28 @@ impl ModelG {
                     self.set(*g, *dst, ed::multiscalar(&ks, &pts), &mut o);
                 }
             }
-            Step::Pre { g, dst, entry, st, ss, ds, dh, .. } => {
+            Step::Pre { g, dst, entry, st, ss, ds, dh, slot, .. } => {
                 if ss.len() > st.len() || ds.len() != dh.len() || (*entry == 0 && !ds.is_empty()) {
                     return Out::Skip;
                 }
                 let mut pts = Vec::new();
                 let mut ks = Vec::new();
+                let mut all_statics = Vec::new();
+                for h in st.iter() {
+                    all_statics.push(need!(*g, *h));
+                }
                 for (i, s) in ss.iter().enumerate() {
-                    pts.push(need!(*g, st[i]));
+                    pts.push(all_statics[i]);
                     ks.push(sc_int(s));
                 }
-                for h in st.iter().skip(ss.len()) {
+                // every dynamic handle must exist before anything is stored (no state change on Skip)
+                for h in dh.iter().flatten() {
                     let _ = need!(*g, *h);
                 }
+                if *entry != 2 && dh.iter().any(|h| h.is_none()) {
+                    return Out::Skip;
+                }
+                self.pslot[*slot as usize % NSLOT] = Some((*g, all_statics));
                 let mut none = false;
                 for (s, h) in ds.iter().zip(dh) {
                     match h {
@@ -398,6 +462,29 @@ pub fn model_random(g: u8, stream: &[u8]) -> Option<Pt> {
 pub struct RealG {
     pub e: Vec<Option<EdwardsPoint>>,
     pub r: Vec<Option<RistrettoPoint>>,
+    /// table objects kept for later reuse
+    tslot: Vec<Option<TableObj>>,
+    pre_e: Vec<Option<VartimeEdwardsPrecomputation>>,
+    pre_r: Vec<Option<VartimeRistrettoPrecomputation>>,
+}
+
+/// a basepoint table object of some radix (or, in builds without precomputed tables, just its base point)
+#[allow(dead_code)]
+enum TableObj {
+    #[cfg(feature = "tables")]
+    E16(Box<curve25519_dalek::edwards::EdwardsBasepointTableRadix16>),
+    #[cfg(feature = "tables")]
+    E32(Box<curve25519_dalek::edwards::EdwardsBasepointTableRadix32>),
+    #[cfg(feature = "tables")]
+    E64(Box<curve25519_dalek::edwards::EdwardsBasepointTableRadix64>),
+    #[cfg(feature = "tables")]
+    E128(Box<curve25519_dalek::edwards::EdwardsBasepointTableRadix128>),
+    #[cfg(feature = "tables")]
+    E256(Box<curve25519_dalek::edwards::EdwardsBasepointTableRadix256>),
+    #[cfg(feature = "tables")]
+    R(Box<curve25519_dalek::ristretto::RistrettoBasepointTable>),
+    PlainE(EdwardsPoint),
+    PlainR(RistrettoPoint),
 }
 
 /// raw-coordinate invariant of an Edwards point: curve equation, Segre relation, Z != 0.
@@ -489,7 +576,7 @@ macro_rules! with_iters_opt {
 
 /// operations that read the same for both point types
 macro_rules! common_ops {
-    ($self:ident, $st:ident, $o:ident, $P:ty, $file:ident, $robs:ident, $Pre:ty, $dec:expr, $base:expr) => {{
+    ($self:ident, $st:ident, $o:ident, $P:ty, $file:ident, $robs:ident, $Pre:ty, $dec:expr, $base:expr, $preslot:ident) => {{
         macro_rules! need {
             ($h:expr) => {
                 match $self.$file.get($h as usize).copied().flatten() {
@@ -669,7 +756,7 @@ macro_rules! common_ops {
                     None => $self.$file[*dst as usize % NREG] = None,
                 }
             }
-            Step::Pre { dst, entry, st, ss, ds, dh, d, it, .. } => {
+            Step::Pre { dst, entry, st, ss, ds, dh, d, it, slot, .. } => {
                 if ss.len() > st.len() || ds.len() != dh.len() || (*entry == 0 && !ds.is_empty()) {
                     return Out::Skip;
                 }
@@ -737,6 +824,53 @@ macro_rules! common_ops {
                         $o.f("second_use_differs", true);
                     }
                 }
+                set_dispatch(0);
+                // the object stays around for later uses (PUse)
+                $self.$preslot[*slot as usize % NSLOT] = Some(pre);
+                match r {
+                    Some(p) => set!(*dst, p),
+                    None => $self.$file[*dst as usize % NREG] = None,
+                }
+            }
+            Step::PUse { dst, slot, entry, ss, ds, dh, d, .. } => {
+                if ds.len() != dh.len() || (*entry == 0 && !ds.is_empty()) {
+                    return Out::Skip;
+                }
+                let sks: Vec<Scalar> = ss.iter().map(sc_real).collect();
+                let dks: Vec<Scalar> = ds.iter().map(sc_real).collect();
+                let mut dps: Vec<Option<$P>> = Vec::new();
+                for h in dh {
+                    match h {
+                        Some(h) => dps.push(Some(need!(*h))),
+                        None => {
+                            if *entry != 2 {
+                                return Out::Skip;
+                            }
+                            dps.push(None)
+                        }
+                    }
+                }
+                let pre = match &$self.$preslot[*slot as usize % NSLOT] {
+                    Some(p) => p,
+                    None => return Out::Skip,
+                };
+                if sks.len() > pre.len() {
+                    return Out::Skip;
+                }
+                set_dispatch(*d);
+                $o.n("len", pre.len() as u64);
+                let r: Option<$P> = match entry {
+                    0 => Some(pre.vartime_multiscalar_mul(sks.iter())),
+                    1 => {
+                        let ps: Vec<$P> = dps.iter().map(|p| p.unwrap()).collect();
+                        Some(pre.vartime_mixed_multiscalar_mul(sks.iter(), dks.iter(), ps.iter()))
+                    }
+                    _ => {
+                        let r = pre.optional_mixed_multiscalar_mul(sks.iter(), dks.clone().into_iter(), dps.clone().into_iter());
+                        $o.f("some", r.is_some());
+                        r
+                    }
+                };
                 set_dispatch(0);
                 match r {
                     Some(p) => set!(*dst, p),
@@ -822,7 +956,13 @@ fn dec_r(b: &simcore::B, via: u8) -> Option<RistrettoPoint> {
 
 impl RealG {
     pub fn new() -> RealG {
-        RealG { e: vec![None; NREG], r: vec![None; NREG] }
+        RealG {
+            e: vec![None; NREG],
+            r: vec![None; NREG],
+            tslot: (0..NSLOT).map(|_| None).collect(),
+            pre_e: (0..NSLOT).map(|_| None).collect(),
+            pre_r: (0..NSLOT).map(|_| None).collect(),
+        }
     }
 
     pub fn apply(&mut self, st: &Step) -> Out {
@@ -910,12 +1050,13 @@ impl RealG {
             | Step::Dbl2 { g, .. }
             | Step::Msm { g, .. }
             | Step::Pre { g, .. }
+            | Step::PUse { g, .. }
             | Step::Eq { g, .. }
             | Step::Zero { g, .. } => {
                 if *g == 0 {
-                    common_ops!(self, st, o, EdwardsPoint, e, robs_e, VartimeEdwardsPrecomputation, dec_e, constants::ED25519_BASEPOINT_POINT)
+                    common_ops!(self, st, o, EdwardsPoint, e, robs_e, VartimeEdwardsPrecomputation, dec_e, constants::ED25519_BASEPOINT_POINT, pre_e)
                 } else {
-                    common_ops!(self, st, o, RistrettoPoint, r, robs_r, VartimeRistrettoPrecomputation, dec_r, constants::RISTRETTO_BASEPOINT_POINT)
+                    common_ops!(self, st, o, RistrettoPoint, r, robs_r, VartimeRistrettoPrecomputation, dec_r, constants::RISTRETTO_BASEPOINT_POINT, pre_r)
                 }
             }
             Step::Uni { dst, b, via } => {
@@ -972,7 +1113,7 @@ impl RealG {
                 set_e!(*dst, r);
             }
             #[cfg(feature = "tables")]
-            Step::Table { g, dst, a, radix, s } => {
+            Step::Table { g, dst, a, radix, s, slot } => {
                 use curve25519_dalek::edwards::{
                     EdwardsBasepointTableRadix128, EdwardsBasepointTableRadix16, EdwardsBasepointTableRadix256,
                     EdwardsBasepointTableRadix32, EdwardsBasepointTableRadix64,
@@ -982,7 +1123,7 @@ impl RealG {
                 if *g == 0 {
                     let p = need_e!(*a);
                     macro_rules! tbl {
-                        ($T:ty) => {{
+                        ($T:ty, $V:ident) => {{
                             let t = <$T>::create(&p);
                             let bp = t.basepoint();
                             let r1 = t.mul_base(&k);
@@ -998,15 +1139,16 @@ impl RealG {
                             } else {
                                 EdwardsBasepointTableRadix16::create(&t.basepoint()).mul_base(&k)
                             };
+                            self.tslot[*slot as usize % NSLOT] = Some(TableObj::$V(Box::new(t)));
                             (bp, r1, cl, conv)
                         }};
                     }
                     let (bp, r, cl, conv) = match radix {
-                        32 => tbl!(EdwardsBasepointTableRadix32),
-                        64 => tbl!(EdwardsBasepointTableRadix64),
-                        128 => tbl!(EdwardsBasepointTableRadix128),
-                        256 => tbl!(EdwardsBasepointTableRadix256),
-                        _ => tbl!(EdwardsBasepointTableRadix16),
+                        32 => tbl!(EdwardsBasepointTableRadix32, E32),
+                        64 => tbl!(EdwardsBasepointTableRadix64, E64),
+                        128 => tbl!(EdwardsBasepointTableRadix128, E128),
+                        256 => tbl!(EdwardsBasepointTableRadix256, E256),
+                        _ => tbl!(EdwardsBasepointTableRadix16, E16),
                     };
                     o.b("tbl_base", bp.compress().as_bytes());
                     if coords_affine(&bp).is_err() {
@@ -1028,11 +1170,58 @@ impl RealG {
                     if r1.compress() != r2.compress() {
                         o.f("table_paths_disagree", true);
                     }
+                    self.tslot[*slot as usize % NSLOT] = Some(TableObj::R(Box::new(t)));
                     set_r!(*dst, r1);
                 }
             }
+            Step::TUse { g, dst, slot, s } => {
+                #[allow(unused_imports)]
+                use curve25519_dalek::traits::BasepointTable;
+                let k = sc_real(s);
+                match (&self.tslot[*slot as usize % NSLOT], *g) {
+                    #[cfg(feature = "tables")]
+                    (Some(TableObj::E16(t)), 0) => {
+                        o.b("tbl_base", t.basepoint().compress().as_bytes());
+                        set_e!(*dst, t.mul_base(&k));
+                    }
+                    #[cfg(feature = "tables")]
+                    (Some(TableObj::E32(t)), 0) => {
+                        o.b("tbl_base", t.basepoint().compress().as_bytes());
+                        set_e!(*dst, t.mul_base(&k));
+                    }
+                    #[cfg(feature = "tables")]
+                    (Some(TableObj::E64(t)), 0) => {
+                        o.b("tbl_base", t.basepoint().compress().as_bytes());
+                        set_e!(*dst, t.mul_base(&k));
+                    }
+                    #[cfg(feature = "tables")]
+                    (Some(TableObj::E128(t)), 0) => {
+                        o.b("tbl_base", t.basepoint().compress().as_bytes());
+                        set_e!(*dst, t.mul_base(&k));
+                    }
+                    #[cfg(feature = "tables")]
+                    (Some(TableObj::E256(t)), 0) => {
+                        o.b("tbl_base", t.basepoint().compress().as_bytes());
+                        set_e!(*dst, t.mul_base(&k));
+                    }
+                    #[cfg(feature = "tables")]
+                    (Some(TableObj::R(t)), 1) => {
+                        o.b("tbl_base", t.basepoint().compress().as_bytes());
+                        set_r!(*dst, &**t * &k);
+                    }
+                    (Some(TableObj::PlainE(p)), 0) => {
+                        o.b("tbl_base", p.compress().as_bytes());
+                        set_e!(*dst, p * &k);
+                    }
+                    (Some(TableObj::PlainR(p)), 1) => {
+                        o.b("tbl_base", p.compress().as_bytes());
+                        set_r!(*dst, p * &k);
+                    }
+                    _ => return Out::Skip,
+                }
+            }
             #[cfg(not(feature = "tables"))]
-            Step::Table { g, dst, a, radix: _, s } => {
+            Step::Table { g, dst, a, radix: _, s, slot } => {
                 // no table types in this build: the same observations through the table-less entry points
                 let k = sc_real(s);
                 if *g == 0 {
@@ -1040,10 +1229,12 @@ impl RealG {
                     o.b("tbl_base", p.compress().as_bytes());
                     o.b("tbl_clamped", p.mul_clamped(s.b.a32()).compress().as_bytes());
                     o.b("tbl_converted", (&p * &k).compress().as_bytes());
+                    self.tslot[*slot as usize % NSLOT] = Some(TableObj::PlainE(p));
                     set_e!(*dst, &k * &p);
                 } else {
                     let p = need_r!(*a);
                     o.b("tbl_base", p.compress().as_bytes());
+                    self.tslot[*slot as usize % NSLOT] = Some(TableObj::PlainR(p));
                     set_r!(*dst, &k * &p);
                 }
             }
